@@ -17,6 +17,7 @@ package quickfix
 
 import (
 	"errors"
+	"math"
 	"strconv"
 )
 
@@ -36,15 +37,21 @@ func atoi(d []byte) (int, error) {
 	}
 
 	if d[0] == asciiMinus {
-		n, err := parseUInt(d[1:])
-		return (-1) * n, err
+		n, err := parseUIntMax(d[1:], uint(math.MaxInt)+1)
+		return -int(n), err
 	}
 
 	return parseUInt(d)
 }
 
 // parseUInt is similar to the function in strconv, but is tuned for ints appearing in FIX field types.
-func parseUInt(d []byte) (n int, err error) {
+func parseUInt(d []byte) (int, error) {
+	n, err := parseUIntMax(d, uint(math.MaxInt))
+	return int(n), err
+}
+
+// parseUIntMax parses an unsigned decimal no greater than max.
+func parseUIntMax(d []byte, max uint) (n uint, err error) {
 	if len(d) == 0 {
 		err = errors.New("empty bytes")
 		return
@@ -56,7 +63,13 @@ func parseUInt(d []byte) (n int, err error) {
 			return
 		}
 
-		n = n*10 + (int(dec) - ascii0)
+		digit := uint(dec - ascii0)
+		if n > (max-digit)/10 {
+			err = errors.New("value out of range")
+			return
+		}
+
+		n = n*10 + digit
 	}
 
 	return
